@@ -317,6 +317,8 @@ def main():
     def run_one(r):
         job, base, n, i, j = r
         rc, out, err = b.run(base, args=[str(n), str(i), str(j)], timeout=20)
+        if rc == -9:   # a loaded machine is not a violation: retry once with a generous limit
+            rc, out, err = b.run(base, args=[str(n), str(i), str(j)], timeout=300)
         return rc, out, err
     results = vlib.pmap(run_one, runs, jobs=vlib.NCPU)
     ck.count(len(runs))
